@@ -125,4 +125,14 @@ CHECKS["C03"] = {
     "parts": [{"bin": "C03_senders"}],
 }
 
+CHECKS["C11"] = {
+    "registered": True,
+    "engine": "seqx + pmc-rt",
+    "technique": "exhaustive input grid (every n up to a bound x worker counts x shape types x throwing sets) through the real bulk on a live runtime + real chunking arithmetic at type boundaries with a hang watchdog + stateless preemption-bounded schedule enumeration of the chunk-stealing workers",
+    "level_text": "Grid: every n in [0,300] (2048 thorough) x workers {1,2,3,4,16} x 7 integral shape types x throwing sets is run through the real thread-pool bulk with per-index counters; chunking arithmetic: the real get_chunk_size at 2^k-1, 2^k, 2^k+1 and max(Shape) for 5 shape types x 7 thread counts must return, tile [0,n) and produce a chunk count that fits init_queue. Schedules: for n <= 4 (5 on 3 workers), every throwing set and both start contexts, every schedule of the workers popping/stealing index chunks within the deviation bound is executed; per-index call counts, unchanged values, exactly one completion after the last call (or exactly one of the thrown errors) are asserted.",
+    "level_note": "The grid runs on a free-running runtime (it enumerates inputs, not schedules); the very-large-n region is checked at the chunking-arithmetic level only (executing 2^32 calls is infeasible); shape types narrower than int do not compile with the pool's bulk (std::min(int, Shape)) and are therefore outside what can be executed; pmc part: sequentially consistent interleavings, 2-3 workers.",
+    "rule": "seqx grid + arithmetic boundaries; pmc-rt: n x throwing sets x start context (data choices) x all schedules within the deviation bound",
+    "parts": [{"bin": "C11_bulk_grid", "part": "grid"}, {"bin": "C11_bulk", "part": "schedules"}],
+}
+
 PENDING = {}
